@@ -1928,7 +1928,20 @@ impl DB {
         ]
         .concat();
 
-        let temp_file_write_result = temp_file.append(&contents);
+        // `append` reports how many bytes it took: fewer than all of them is a failed write too
+        let temp_file_write_result = temp_file.append(&contents).and_then(|bytes_written| {
+            if bytes_written < contents.len() {
+                return Err(io::Error::new(
+                    io::ErrorKind::WriteZero,
+                    format!(
+                        "Only {bytes_written} of {} bytes of the manifest file name were written.",
+                        contents.len()
+                    ),
+                ));
+            }
+
+            Ok(bytes_written)
+        });
         if temp_file_write_result.is_err() {
             log::error!(
                 "Creating a new CURRENT file failed at writing the manifest file name ({:?}) to \
